@@ -12,17 +12,57 @@ Import ListNotations.
 Lemma mapM_ext {A B} (f g : A -> res B) l : (forall x, f x = g x) -> mapM f l = mapM g l.
 Proof. intros H. induction l as [|x r IH]; simpl; auto. rewrite H, IH. reflexivity. Qed.
 
+(* the proofs below tolerate the harmless rewrites the translator accepts: commuted operands of
+   `+`, `*`, `==` and `min`, the two `let`s of index / get in either order *)
+Lemma sk_cell_eq {T} (sc : sscores T) row col row' col' :
+  row = row' -> col = col' -> sk_cell sc row col = sk_cell sc row' col'.
+Proof. intros -> ->. reflexivity. Qed.
+
 Lemma sk_index_eq {T} (sc : sscores T) i : sk_index sc i = sc_get sc i.
-Proof. unfold sk_index, sc_get, sk_cell, ix_col, ix_row. destruct (_ =? 0); reflexivity. Qed.
+Proof.
+  unfold sk_index, sc_get. destruct (_ =? 0); [reflexivity|].
+  change (match nth_error (sc_mat sc) (i mod length (sc_mat sc)) with
+          | Some row => match nth_error row (i / length (sc_mat sc)) with Some v => Ok v | None => Panic 22 end
+          | None => Panic 21 end)
+    with (sk_cell sc (i mod length (sc_mat sc)) (i / length (sc_mat sc))).
+  apply sk_cell_eq; unfold ix_row, ix_col; reflexivity.
+Qed.
 
 Lemma sk_iter_get_eq {T} (sc : sscores T) i : sk_iter_get sc i = sc_get sc i.
-Proof. unfold sk_iter_get, sc_get, sk_cell, ig_col, ig_row. destruct (_ =? 0); reflexivity. Qed.
+Proof.
+  unfold sk_iter_get, sc_get. destruct (_ =? 0); [reflexivity|].
+  change (match nth_error (sc_mat sc) (i mod length (sc_mat sc)) with
+          | Some row => match nth_error row (i / length (sc_mat sc)) with Some v => Ok v | None => Panic 22 end
+          | None => Panic 21 end)
+    with (sk_cell sc (i mod length (sc_mat sc)) (i / length (sc_mat sc))).
+  apply sk_cell_eq; unfold ig_row, ig_col; reflexivity.
+Qed.
+
+Lemma sk_iter_end_eq {T} C (sc : sscores T) : sk_iter_end C sc = sc_iter_end C sc.
+Proof. unfold sk_iter_end, sc_iter_end, it_end_a, it_end_b. lia. Qed.
+
+Lemma sk_iter_lo_eq {T} C (sc : sscores T) : sk_iter_lo C sc = 0.
+Proof. reflexivity. Qed.
 
 Lemma sk_unstripe_eq {T} C (sc : sscores T) : sk_unstripe C sc = sc_unstripe C sc.
 Proof.
-  unfold sk_unstripe, sc_unstripe, sk_iter_lo, sk_iter_end, it_lo, it_end_a, it_end_b.
-  rewrite Nat.sub_0_r. apply mapM_ext. intros x. apply sk_iter_get_eq.
+  unfold sk_unstripe, sc_unstripe. rewrite sk_iter_lo_eq, Nat.sub_0_r.
+  change (Nat.min (sc_max sc) (length (sc_mat sc) * C)) with (sc_iter_end C sc).
+  rewrite sk_iter_end_eq. apply mapM_ext. intros x. apply sk_iter_get_eq.
 Qed.
+
+Lemma sk_is_empty_eq {T} (sc : sscores T) : sk_is_empty sc = sc_is_empty sc.
+Proof. unfold sk_is_empty, sc_is_empty, ie_lhs, ie_rhs. first [reflexivity | apply Nat.eqb_sym]. Qed.
+
+Lemma sk_offset_eq {T} (sc : sscores T) r c : sk_offset sc r c = sc_offset sc r c.
+Proof. unfold sk_offset, sc_offset, of_expr. lia. Qed.
+
+Lemma sk_resize_eq {T} (zero : T) C (sc : sscores T) rows maxi :
+  sk_resize zero C sc rows maxi = sc_resize zero C sc rows maxi.
+Proof. reflexivity. Qed.
+
+Lemma sk_empty_eq {T} (zero : T) C : sk_empty zero C = sc_empty.
+Proof. reflexivity. Qed.
 
 (* ---------- a generic call rewrites every row of the resized buffer ---------- *)
 
